@@ -23,6 +23,10 @@ fn fade(chunks: f64) -> Tween {
 	Tween { start_time: StartTime::Immediate, duration: Duration::from_secs_f64(chunks * IBS as f64 / SR as f64), easing: Easing::Linear }
 }
 
+thread_local! {
+	static CASE_CLASS: std::cell::Cell<u64> = const { std::cell::Cell::new(0) };
+}
+
 struct Node {
 	handle: Option<TrackHandle>,
 	parent: Option<usize>,
@@ -464,6 +468,11 @@ fn tree_case(r: &mut Rng, stats: &mut Stats) -> Result<(), String> {
 			}
 		}
 	}
+	// the class of this case: the tree's shape, which tracks persist, and which kinds of operation its history contains
+	let shape: Vec<(Option<usize>, bool)> = sc.nodes.iter().map(|n| (n.parent, n.persist)).collect();
+	let mut kinds: Vec<&str> = ["pause", "resume track", "resume_at", "drop handle", "stop bit", "while it waits"].into_iter().filter(|k| sc.log.iter().any(|l| l.contains(k))).collect();
+	kinds.sort();
+	CASE_CLASS.with(|c| c.set(crate::util::hash_str(&format!("{:?}|{:?}|{}", shape, kinds, sc.main_sounds.len())) & 0xFFFF_FFFF));
 	Ok(())
 }
 
@@ -798,7 +807,9 @@ pub fn run(ctx: &mut Ctx) {
 			ctx.exclude("C12.track_state_panics_after_resume_clock_removed");
 		}
 		match res {
-			Ok(Ok(())) => ctx.distinct_key(0xC12_0000_0000 | (kind << 24) | (i % (1 << 20))),
+			// distinct = a new class: (tree shape, persistence flags, kinds of operation in the history) for the tree cases, the
+			// case family for the others
+			Ok(Ok(())) => ctx.distinct_key(0xC12_0000_0000_0000 | (kind.min(6) << 40) | if kind <= 5 { CASE_CLASS.with(|c| c.get()) } else { 0 }),
 			Ok(Err(e)) => ctx.violation("tree", i, &e, J::Null),
 			Err(p) => ctx.violation("tree", i, &format!("panic: {} (in callback: {})", p.first().map(|p| p.sig()).unwrap_or_default(), p.first().map(|p| p.in_callback).unwrap_or(false)), J::Null),
 		}
